@@ -369,6 +369,20 @@ func c11Fixed(g *lineGen, r *rng, tier string) {
 			g.roundTrip(fn, specs, r, 3)
 		}
 	}
+	// ---- full duplex: Sends on the channel that is in the middle of receiving (small and multi-megabyte inbound
+	// records; the inbound stream arrives in many reads)
+	for _, fn := range append(append(c11SplitFramings(), c11HdrFramings()...), "rawjson") {
+		fr := parseFraming(fn)
+		outs := joinRecs([]string{bigRec(fr, 40, 91), bigRec(fr, 3, 92), bigRec(fr, 100, 93)})
+		for _, n := range []int{10, 5000, 70000} {
+			g.add("DX", fn, fmt.Sprintf("r%dx%d", r.next()>>2, 9), joinRecs([]string{bigRec(fr, n, uint64(n)), bigRec(fr, 7, 5)}), outs)
+		}
+		if strings.HasPrefix(fn, "split") || fn == "line" || fn == "rawjson" {
+			continue
+		}
+		// header framings: an inbound record beyond the preallocation bound (16 MiB), its body arriving in 1 MiB reads
+		g.add("DX", fn, fmt.Sprintf("r%dx%d", 77, 1<<20), joinRecs([]string{zspec(1<<24+33, 78, "c"), lit("tail")}), outs)
+	}
 	// ---- Direct
 	directs := [][]string{{}, {""}, {"", ""}, {"a"}, {"a", "", "b"}, {"abc", "abc"}, {"\x00", "\n"}}
 	for _, recs := range directs {
